@@ -24,16 +24,15 @@ def mc_cfg(inv, live):
 
 def mc_parts(quick):
     base = {"MaxAckDelay": 2, "Dts": "{1, 3}"}
-    # seq: the sequential path of the policy as the code has it -- every property incl. the wake-up clause, application space
-    seq = dict(base, Fixed="FALSE", Race="FALSE", MCSpaces="{3}", Pns="{0, 1, 2}", Horizon=5 if quick else 7)
+    # seq: the sequential path of the policy as the code has it -- every property incl. the wake-up clause, application space,
+    # and liveness under fair polling and a progressing clock
+    seq = dict(base, Fixed="FALSE", Race="FALSE", MCSpaces="{3}", Pns="{0, 1, 2}", Horizon=4 if quick else 6)
     # hs: a handshake space next to the application space (immediate acknowledgement, discard)
-    hs = dict(base, Fixed="FALSE", Race="FALSE", MCSpaces="{2, 3}", Pns="{0, 1}", Horizon=4 if quick else 5)
-    # live: liveness under fair polling and a progressing clock
-    live = dict(base, Fixed="FALSE", Race="FALSE", MCSpaces="{3}", Pns="{0, 1}" if quick else "{0, 1, 2}", Horizon=5 if quick else 6)
-    # racefix: arrivals interleaved with the three steps of sending an ACK, on the design WITH the proposed repairs
-    racefix = dict(base, Fixed="TRUE", Race="TRUE", MCSpaces="{3}", Pns="{0, 1, 2}", Horizon=4 if quick else 6)
-    return [("seq", seq, mc_cfg("Inv", False)), ("hs", hs, mc_cfg("Inv", False)), ("live", live, mc_cfg("Inv", True)),
-            ("race-repaired", racefix, mc_cfg("InvNoWake", True))]
+    hs = dict(base, Fixed="FALSE", Race="FALSE", MCSpaces="{2, 3}", Pns="{0, 1}", **({"MaxAckDelay": 1, "Dts": "{1, 2}", "Horizon": 2} if quick else {"Horizon": 4}))
+    # race-repaired: arrivals interleaved with the three steps of sending an ACK, on the design WITH the proposed repairs
+    racefix = dict(base, Fixed="TRUE", Race="TRUE", MCSpaces="{3}", Pns="{0, 1, 2}", Horizon=3 if quick else 5)
+    return [("seq", seq, mc_cfg("Inv", True)), ("hs", hs, mc_cfg("Inv", False)),
+            ("race-repaired", racefix, mc_cfg("InvNoWake", not quick))]
 
 
 def gen_parts(quick):
@@ -126,7 +125,7 @@ def run_part(pid, tier, rep):
     quick = tier == "quick"
     wd = vlib.workdir(pid)
     _adopt_known(rep)
-    for name, consts, cfg in mc_parts(quick):
+    for name, consts, cfg in ([] if os.environ.get("X2_SKIP_MC") else mc_parts(quick)):
         need = ["Rcvd", "Advance", "Poll", "Gen", "Sent"] + (["Discard"] if name == "hs" else [])
         st = vlib.tlc_mc(pid, "MC_AckPolicy", cfg, consts, need_actions=need)
         rep.add_mc("ackpolicy/MC_AckPolicy/" + name, st)
